@@ -1,5 +1,5 @@
 """C14 — DAG diff applied to the source reproduces the target (spec/DagDiff)."""
-import json
+import json, os
 
 META = dict(
     spec="DagDiff",
@@ -7,7 +7,10 @@ META = dict(
                 "and requires of the list REPORTED by the real dagutils.Diff(a, b) that folding it over a yields b, and that "
                 "nothing is reported for a = b. TLC enumerates every pair of directory trees (depth <= 2, fan-out <= 2, 2 leaf "
                 "payloads, empty directories) that are one edit apart (thorough: plus a sample of pairs two edits apart) -- add, "
-                "remove, replace leaf, directory<->leaf, nested; the harness builds them as real dag-pb nodes, runs the real "
+                "remove, replace leaf, directory<->leaf, nested -- and, in a second family where directories carry their OWN data "
+                "(plain or with metadata; 2312 trees, a seed-chosen slice of the 157 216 one-edit pairs), pairs that differ in the "
+                "data of a directory, empty or populated, at the root or nested, alone or together with entry changes "
+                "(populated directory replaced by another populated directory); the harness builds them as real dag-pb nodes, runs the real "
                 "Diff and the real ApplyChange, and TLC validates the log case by case, one model step per reported change: "
                 "model fold = b, projection of the real ApplyChange result = model fold, CID equal to b's. Seeded random pairs "
                 "(depth 4, fan-out 6, 1..8 edits from a common ancestor) go through the same validation. TLC also shows that a "
@@ -18,6 +21,17 @@ META = dict(
 )
 
 DEV = "Dev_C14_DataIgnored"
+
+
+def sharded_cfg(ctx, cfg, shard, nshards=None):
+    """materialise a cfg whose slice of the universe (@SHARD@ of @NSHARDS@) is chosen by the runner"""
+    sdir = ctx.specdir("DagDiff")
+    txt = open(os.path.join(sdir, cfg)).read()
+    m = [l for l in txt.splitlines() if "NShards =" in l]
+    n = nshards or int(m[0].split("=")[1])
+    out = "sh_" + cfg
+    open(os.path.join(sdir, out), "w").write(txt.replace("@NSHARDS@", str(n)).replace("@SHARD@", str(shard % n)))
+    return out
 
 
 def split_cases(recs):
@@ -36,11 +50,18 @@ def run(ctx):
     ctx.assumptions += ["mdtest.Mock() DAG service stores and returns nodes faithfully",
                         "directory trees: ProtoNode leaves, unique names without '/'"]
     ctx.cov["rule"] = ("cases = all pairs (a, b) of directory trees over names {x,y}, depth <= 2, leaves {1,2} with b one edit "
-                       "from a (13357 pairs; quick: seeded sample; thorough: all + sample of 2-edit pairs) + seeded random "
-                       "pairs depth 4 / fan-out 6; non-trivial = a case with at least one reported change")
+                       "from a (13357 pairs; quick: seeded sample; thorough: all + sample of 2-edit pairs) + family D: same "
+                       "shape, leaves {1}, directory data {0,100} (own data of any directory, root included, may differ; 157216 "
+                       "pairs, seed-chosen slice 1/16 quick, 1/8 thorough) + seeded random pairs depth 4 / fan-out 6 with directory "
+                       "metadata; non-trivial = a case with at least one reported change")
     # ---------------- M : change-list semantics + reference diff, every application order
-    ctx.tlc_mc("DagDiff", "MCDagDiff.tla", "MCDagDiffQ.cfg" if ctx.quick else "MCDagDiff.cfg",
-               timeout=900 if ctx.quick else 2400, deadlock=False, coverage=not ctx.quick)
+    # quick: a seed-chosen slice of the universe whose directories carry their own data (contains the plain universe);
+    # thorough: the plain universe with 2 leaf payloads exhaustively + a larger slice of the former
+    if ctx.quick:
+        ctx.tlc_mc("DagDiff", "MCDagDiff.tla", sharded_cfg(ctx, "MCDagDiffDQ.cfg", ctx.seed), timeout=900, deadlock=False)
+    else:
+        ctx.tlc_mc("DagDiff", "MCDagDiff.tla", "MCDagDiff.cfg", timeout=2400, deadlock=False, coverage=True)
+        ctx.tlc_mc("DagDiff", "MCDagDiff.tla", sharded_cfg(ctx, "MCDagDiffD.cfg", ctx.seed), timeout=2400, deadlock=False)
     if not ctx.quick:
         # the as-built descent rule (deviation enabled) yields exactly AsBuiltResult, and breaks the property
         ctx.tlc_mc("DagDiff", "MCDagDiff.tla", "MCDagDiffDevQ.cfg", timeout=900, deadlock=False)
@@ -50,17 +71,23 @@ def run(ctx):
             ctx.broken("model control: as-built descent rule does not break the property in the model (%s)" % r["violated"])
     # ---------------- G : enumerate cases
     cases = ctx.tlc_gen("DagDiff", "GenDagDiff.tla", "GenDagDiff.cfg", timeout=1200)
+    # family D: directories carry their own data (root included); a slice of the source trees chosen by the seed
+    casesD = ctx.tlc_gen("DagDiff", "GenDagDiff.tla",
+                         sharded_cfg(ctx, "GenDagDiffD.cfg", ctx.seed, 16 if ctx.quick else 8), timeout=1200)
     if ctx.quick:
         same = [c for c in cases if c["a"] == c["b"]]          # every a = b case (Diff(a, a) = <<>>)
         rest = [c for c in cases if c["a"] != c["b"]]
         ctx.rng.shuffle(rest)
-        cases = same + rest[:1500]
+        sameD = [c for c in casesD if c["a"] == c["b"]]
+        restD = [c for c in casesD if c["a"] != c["b"]]
+        ctx.rng.shuffle(restD)
+        cases = same + rest[:1200] + sameD + restD[:1200]
     else:
         two = ctx.tlc_gen("DagDiff", "GenDagDiff.tla", "GenDagDiffK2.cfg", timeout=2400)
         seen = {json.dumps(c, sort_keys=True) for c in cases}
         two = [c for c in two if json.dumps(c, sort_keys=True) not in seen]
         ctx.rng.shuffle(two)
-        cases = cases + two[:6000]
+        cases = cases + two[:6000] + casesD
     ctx.cov["exhaustive"] = not ctx.quick
     binp = ctx.go_build("ipld/merkledag/dagutils", ["ipld/merkledag/dagutils/zz_verif_C14_test.go"])
     inp = ctx.write_ndjson("cases.ndjson", cases)
